@@ -32,7 +32,7 @@ def callerPast : CPc → Bool
 /-- errors that `cancel` can have stored. -/
 def errOK (c : Cfg) : Err → Prop
   | .noOutput => False
-  | e => allowed c (.err e) = true
+  | e => allowed0 c (.err e) = true
 
 theorem writesOf_cons_le (a : UAct) (l : List UAct) : (writesOf l).length ≤ (writesOf (a :: l)).length := by
   cases a <;> simp [writesOf]
@@ -92,11 +92,11 @@ theorem errOK_faulty {c : Cfg} {e : Err} (h : errOK c e) :
     c.ctxCan = true ∨ c.ctxPre = true ∨ anyScript c hasCancel = true := by
   cases e with
   | noOutput => exact h.elim
-  | deadline => simp only [errOK, allowed, Bool.or_eq_true] at h; rcases h with h | h <;> simp [h]
+  | deadline => simp only [errOK, allowed0, Bool.or_eq_true] at h; rcases h with h | h <;> simp [h]
   | nilCancel => exact Or.inr (Or.inr (anyScript_mono (fun l => hasCancel_of_contains) h))
   | user k => exact Or.inr (Or.inr (anyScript_mono (fun l => hasCancel_of_contains) h))
 
-theorem errOK_allowed {c : Cfg} {e : Err} (h : errOK c e) : allowed c (.err e) = true := by
+theorem errOK_allowed {c : Cfg} {e : Err} (h : errOK c e) : allowed0 c (.err e) = true := by
   cases e <;> first | exact h | rfl
 
 end GoZero.C10
